@@ -1231,8 +1231,13 @@ def run(ctx):
                 "response/metadata names are relative|fully-qualified x same-file|imported|un-imported|nested|Empty|other dependency type "
                 "(imported by the service's file or not); 30% of the APIs put the service's file in a SUB-PACKAGE `<pkg>.sub` while files of the ancestor package "
                 "`<pkg>` and of `<pkg>.other` | `<pkg>.sub.deeper` define messages with the same short names (relative names must denote the method's "
-                "package; T3 skipped for two-level sub-packages) x histories (RPC reply, not-done^k, done(response|error|neither), extra replies) x "
-                "{gRPC, gRPC asyncio, REST}; plus rejection cases and excluded points; distinct by API spec, by (transport, response case, "
+                "package; T3 skipped for two-level sub-packages); LRO methods share response/metadata types in every combination (same response, same metadata, "
+                "both, crossed, one's response = another's metadata, chains); rpcs named Operation/OperationAsync and files operation(_async).proto (module alias); "
+                "a second service in the un-imported file (0..2 LROs, sometimes none: no operations client); service-config http rules for Operations "
+                "(additional bindings, duplicate selectors, suffixes, other services' rules, mixin) x histories (RPC reply, not-done^k, done(response|error|neither), extra replies) x "
+                "{gRPC, gRPC asyncio, REST}; futures used as OBJECTS: programs over metadata/done()/running()/cancel()/result()/exception(), two futures "
+                "interleaved on one client with the same request dict literal, against a server that answers GetOperation by operation name; "
+                "plus rejection cases (also in the second service, also annotation present-but-empty) and excluded points; distinct by API spec, by (transport, response case, "
                 "metadata case, history shape), by selector pair; non-trivial = every one")
     r = ctx.rng("specs")
     for fn, blob in corpus_entries():                         # corpus first
@@ -1268,9 +1273,13 @@ CLAIM = dict(
           "import-invariance); an annotated Operation-returning method lacking either name is rejected with TypeError at build; without the "
           "annotation the raw Operation is returned; the emitted future carries exactly the annotated response/metadata types and the transport's "
           "own operations client (same channel); for ALL histories not-done^k,done the result is an instance of the annotated response type after "
-          "k+1 polls, errors raise, nothing after the done reply is fetched. Tie: T2 real Address.resolve, _maybe_get_lro, Method.lro, "
+          "k+1 polls, errors raise, nothing after the done reply is fetched; services load method by method (entry i is lroInfo of method i alone; the first "
+          "incomplete annotation aborts the build); the emitted constructor call uses the name the import binds (alias gac_operation on collision); "
+          "observing a future (metadata/done/cancel/exception, any program) never changes its result nor the total number of polls, and a completed "
+          "future sends nothing; the REST operations client's http table and poll URL (service-config rule over the default). Tie: T2 real Address.resolve, _maybe_get_lro, Method.lro, "
           "_client_output vs the model; T3 generation outcome and the emitted sync gRPC, asyncio gRPC and REST clients against loopback servers "
-          "with scripted GetOperation histories vs the model; model-independent oracle on result/metadata types and contents, poll counts and targets."),
+          "with scripted GetOperation histories and with programs over the future object (libhost_c08) vs the model; Address.module_alias, Service.has_lro, "
+          "the REST operations http table vs the model; model-independent oracle on result/metadata types and contents, poll counts and targets."),
     technique="Lean 4 theorems (iff-characterisation of _maybe_get_lro, import invariance, induction over polling histories) + differential T2/T3 on three transports",
     design="7.8",
     note=("Polling is api-core's and is modelled as 'first done operation decides' (sleeps trapped in T3). The same-channel claim is structural in the model; "
